@@ -20,3 +20,33 @@ pub proof fn lemma_filter_map_commute<A, B>(s: Seq<A>, f: spec_fn(A) -> B, p: sp
         assert(s.map_values(f).last() == f(s.last()));
     }
 }
+
+/// a filter whose predicate holds everywhere is the identity
+pub proof fn lemma_filter_all<A>(s: Seq<A>, p: spec_fn(A) -> bool)
+    requires forall|i: int| 0 <= i < s.len() ==> p(#[trigger] s[i]),
+    ensures s.filter(p) =~= s,
+    decreases s.len(),
+{
+    reveal(Seq::filter);
+    if s.len() > 0 {
+        lemma_filter_all(s.drop_last(), p);
+        assert(s.drop_last().push(s.last()) =~= s);
+    }
+}
+
+/// a duplicate-free sequence inside a set of the same size enumerates the whole set
+pub proof fn lemma_injective_seq_covers<A>(ks: Seq<A>, d: Set<A>)
+    requires ks.no_duplicates(), forall|i: int| 0 <= i < ks.len() ==> d.contains(#[trigger] ks[i]), ks.len() == d.len(),
+    ensures forall|k: A| d.contains(k) ==> ks.contains(k),
+{
+    ks.unique_seq_to_set();
+    assert(ks.to_set().subset_of(d)) by {
+        assert forall|a: A| ks.to_set().contains(a) implies d.contains(a) by {
+            let i = choose|i: int| 0 <= i < ks.len() && ks[i] == a;
+        }
+    }
+    vstd::set_lib::lemma_subset_equality(ks.to_set(), d);
+    assert forall|k: A| d.contains(k) implies ks.contains(k) by {
+        assert(ks.to_set().contains(k));
+    }
+}
